@@ -874,6 +874,10 @@ static int32_t tls13ParseHandshakeMessage(ssl_t *ssl,
         *bufStart = pb.buf.start;
         return SSL_PARTIAL;
     }
+    /* The message parsers below see this handshake message only: a body
+       that continues past the length announced in the header is not part
+       of the message */
+    pb.buf.end = pb.buf.start + hsMsgLen;
 # ifdef DEBUG_TLS_1_3_DECODE_DUMP
     psTraceBytes("handshake message", msgStart, hsMsgLen);
 # endif
